@@ -146,6 +146,14 @@ def compare(impl_path, model_path, tol=1e-9, tol_solve=1e-7, skip_labels=(), con
                 if perm is not None and len(tb) == len(perm): tb = [tb[perm[i]] for i in range(len(perm))]
                 tl = tol_solve if lab in SOLVE_LABELS else tol
                 if twin_tol is not None: tl = max(tl, twin_tol)
+                def nonfinite(tk):
+                    for x in tk:
+                        v = tonum(x)
+                        if v is not None and not math.isfinite(v): return True
+                    return False
+                if nonfinite(I[ka]) and nonfinite(tb):
+                    # both calls produced non-finite numbers (singular system): nothing to compare
+                    rep["discarded_ill_conditioned"] += 1; continue
                 d = cmp_tokens(I[ka], tb, tl)
                 if d: rep["oracle_mismatch"].append({"case": c, "seq": int(b), "label": "same:" + lab, "why": "results of call %d and call %d differ: %s" % (a, b, d)})
         for key in M:
